@@ -17,9 +17,14 @@ import time
 from pathlib import Path
 
 VERIF = Path("/verif")
-REPO = Path("/repo")
-COQ = VERIF / "coq"
+# VERIF_REPO: run the checks against another checkout (a scratch worktree with a seeded change) without touching
+# /repo; the Coq development is then built in a private copy so that the regenerated facts do not disturb /verif/coq.
+REPO = Path(os.environ.get("VERIF_REPO") or "/repo")
 WORK = VERIF / ".work"
+if str(REPO) == "/repo":
+    COQ = VERIF / "coq"
+else:
+    COQ = WORK / ("coq." + re.sub(r"[^A-Za-z0-9]+", "_", str(REPO)).strip("_"))
 EVID = VERIF / "evidence"
 REPLAYS = VERIF / "replays"
 KNOWN = VERIF / "known_findings.json"
@@ -30,7 +35,7 @@ COQ_FLAGS = ["-R", str(COQ), "FR"]
 
 def env_for_repo(extra=None):
     env = dict(os.environ)
-    env["PYTHONPATH"] = str(REPO)
+    env["PYTHONPATH"] = str(REPO) + ":" + str(VERIF / "tools")
     env["PYTHONHASHSEED"] = "0"
     env["FOX_IT_FLOW_RECORD_VERIF"] = "1"
     env.pop("FLOW_RECORD_IGNORE", None)
@@ -83,17 +88,32 @@ def write_if_changed(path: Path, text: str) -> bool:
 # --------------------------------------------------------------------------------------
 # Coq build
 
+def _ensure_private_coq():
+    if COQ == VERIF / "coq":
+        return
+    WORK.mkdir(exist_ok=True)
+    COQ.mkdir(exist_ok=True)
+    sh(["rsync", "-a", "--exclude", ".lock", "--exclude", "Makefile*", "--exclude", ".Makefile.d",
+        str(VERIF / "coq") + "/", str(COQ) + "/"], timeout=300)
+
+
 def regenerate_facts(gens=()):
     """Run the translator (facts extractor) against /repo's working tree -> coq/gen/*.v.
     Returns (ok, log). Fail closed: a requested generator that cannot express what it finds makes ok False
     (all generators run; only failures of the requested ones count for this property)."""
-    rc, out = sh([PY, str(VERIF / "tools/vf/facts.py")] + list(gens), timeout=120, env=env_for_repo(), cwd=str(VERIF))
+    rc, out = sh([PY, str(VERIF / "tools/vf/facts.py")] + list(gens), timeout=120,
+                 env=env_for_repo({"VERIF_GEN_DIR": str(COQ / "gen")}), cwd=str(VERIF))
     return rc == 0, out
 
 
 def _ensure_makefile():
     mk = COQ / "Makefile"
     cp = COQ / "_CoqProject"
+    # _CoqProject lists every .v under lib/ gen/ model/ proofs/ props/ (regenerated when the set changes)
+    vs = sorted(str(p.relative_to(COQ)) for d in ("lib", "gen", "model", "proofs", "props") for p in (COQ / d).glob("*.v"))
+    text = "-R . FR\n" + "\n".join(vs) + "\n"
+    if not cp.exists() or cp.read_text() != text:
+        cp.write_text(text)
     if not mk.exists() or mk.stat().st_mtime < cp.stat().st_mtime:
         rc, out = sh(["coq_makefile", "-f", "_CoqProject", "-o", "Makefile"], cwd=str(COQ), timeout=60)
         if rc != 0:
@@ -106,6 +126,7 @@ def _ensure_makefile():
 def coq_build(targets, timeout=900, gens=()):
     """Translator + full .vo build (never -vos) of the given targets (paths relative to coq/,
     e.g. 'props/C08.vo').  Returns dict(ok, facts_ok, log, failed)."""
+    _ensure_private_coq()
     with Lock(COQ / ".lock"):
         facts_ok, flog = regenerate_facts(gens)
         if not facts_ok:
@@ -253,9 +274,14 @@ def parse_nat_list(out: str, marker="failing"):
 # known findings
 
 def load_known():
-    if not KNOWN.exists():
-        return {"findings": [], "fixed": []}
-    return json.loads(KNOWN.read_text())
+    """known_findings.json (+ known_findings.d/*.json fragments of the same shape)."""
+    out = {"findings": [], "fixed": []}
+    files = ([KNOWN] if KNOWN.exists() else []) + sorted((VERIF / "known_findings.d").glob("*.json"))
+    for f in files:
+        d = json.loads(f.read_text())
+        out["findings"] += d.get("findings", [])
+        out["fixed"] += d.get("fixed", [])
+    return out
 
 
 def known_for(pid):
@@ -339,7 +365,8 @@ class Ctx:
         rc = 1 if self.violations else 0
         print("[%s] tier=%s seed=%d evaluations=%d distinct=%d obligations=%d/%d violations=%d wall=%.1fs" % (
             self.pid, self.tier, self.seed, ev["coverage"]["evaluations"], ev["coverage"]["distinct_nontrivial"],
-            ev["coverage"]["discharged"], ev["coverage"]["obligations"], len(self.violations), ev["wall_s"]))
+            ev["coverage"].get("discharged", 0), ev["coverage"].get("obligations", ev["coverage"].get("obligations_in_cone", 0)),
+            len(self.violations), ev["wall_s"]))
         return rc
 
 
